@@ -331,7 +331,7 @@ fn roundtrip(ctx: &mut Ctx) {
 
 fn ip6_forms(ctx: &mut Ctx) {
     let mut idx = 0u64;
-    let fillings = ctx.tier.pick(12usize, 200);
+    let fillings = ctx.tier.pick(40usize, 400);
     // shape: None = uncompressed; Some((p, l)) = groups p..p+l replaced by '::'
     let mut shapes: Vec<Option<(usize, usize)>> = vec![None];
     for p in 0..8 {
@@ -626,7 +626,7 @@ pub fn run(ctx: &mut Ctx) {
     malformed(ctx);
     ctx.more_samples(3);
     let n = ctx.nshards as u32;
-    drive(ctx, "random", ctx.tier.pick(120_000, 4_000_000) / n, 24, 96, |ctx, bytes| random_edit(ctx, bytes));
+    drive(ctx, "random", ctx.tier.pick(1_000_000, 20_000_000) / n, 24, 96, |ctx, bytes| random_edit(ctx, bytes));
 }
 
 pub fn replay(section: &str, case: &Value, ctx: &mut Ctx) {
